@@ -36,12 +36,13 @@ GenNext ==
   LET r  == RandomElement(1..100)
       p  == RandomElement(1..100)
       fl == RandomElement(1..(3 * N))          \* one endpoint flips in a third of the advances
-  IN IF Busy # {} /\ (Free = {} \/ r <= 60) THEN GDone(p)
+  IN IF Overlap /\ Busy # {} /\ r >= 80 THEN GCheck          \* the status check runs while a call is in flight
+     ELSE IF Busy # {} /\ (Free = {} \/ r <= 60) THEN GDone(p)
      ELSE IF r <= 50 THEN GSelect
      ELSE IF Busy = {} /\ r <= 72 THEN GCheck
      ELSE IF Busy = {} THEN GAdvance(fl)
      ELSE GSelect
 GenInit == Init /\ hist = <<>> /\ bad \in SUBSET Eps
 GenSpec == GenInit /\ [][GenNext]_<<vars, hist, bad>>
-Emit == TLCGet("level") < D \/ PrintT(ToJson([n |-> N, calls |-> Cardinality(Calls), steps |-> hist]))
+Emit == TLCGet("level") < D \/ PrintT(ToJson([n |-> N, calls |-> Cardinality(Calls), overlap |-> Overlap, steps |-> hist]))
 ====
